@@ -630,3 +630,12 @@ func SleepVirtual(d time.Duration) {
 	x.addTimer(d, 0, nil, nil)
 	x.wait("sleep", site(2), func() bool { return x.now >= deadline })
 }
+
+// ThreadID returns the id of the running harness thread (-1 without an execution).
+func ThreadID() int {
+	x := active.Load()
+	if x == nil || x.cur == nil {
+		return -1
+	}
+	return x.cur.id
+}
